@@ -10,6 +10,7 @@ import (
 	"fmt"
 	"io"
 	"os"
+	"runtime/debug"
 	"strconv"
 
 	log "github.com/sirupsen/logrus"
@@ -50,6 +51,15 @@ func main() {
 		os.Exit(2)
 	}
 	c := &ctx{tier: *tier, seed: *seed, r: &rng{*seed*0x2545F4914F6CDD1D + 0x1234567}, o: newOut(*out), replay: *replay, args: flag.Args()[1:]}
+	defer func() {
+		if r := recover(); r != nil {
+			// keep what was observed so far (monitor hits included), then report the crash to the orchestrator
+			c.o.N(fmt.Sprintf("harness panic: %v", r))
+			c.o.close()
+			fmt.Fprintf(os.Stderr, "harness panic: %v\n%s\n", r, debug.Stack())
+			os.Exit(3)
+		}
+	}()
 	f(c)
 	c.o.close()
 }
